@@ -12,7 +12,7 @@
 //    (reported separately; it is a crash, not a scheduling defect).
 //  * Joining a multicast group (done by update_ip_addrs for the solicited-node group on Ethernet) is
 //    announced by the next poll but not scheduled through poll_at; C13 excludes the MLD/IGMP
-//    machinery, and the poll harnesses leave `multicast_egress` out (see `poll_core`).
+//    machinery, and the poll harnesses start without a pending join (address pushed directly).
 #[allow(dead_code, unused_imports, unused_variables, unused_mut, unused_macros)]
 mod v_iface_pollat {
     use super::*;
@@ -112,8 +112,7 @@ mod v_iface_pollat {
             if eth { Medium::Ethernet } else { Medium::Ip }
         }
 
-        /// Drive the interface's `Slaac` through history `tag` (concrete on each path, so that loops over
-        /// stored routes have constant trip counts), every event at a symbolic instant <= `now`:
+        /// Drive the interface's `Slaac` through history `tag`, every event at a symbolic instant <= `now`:
         ///   0 Start (nothing happened)            1 / 5 Discovering, 1 / 2 solicitations sent
         ///   2 Discovering, all 3 solicitations sent, no answer
         ///   3 Maintaining, router answered with lifetime 0 (nothing stored)
@@ -389,7 +388,7 @@ mod v_iface_pollat {
             let _ = iface.poll(us(t), &mut dev, &mut sockets);
             crate::vdump!("POST transmit attempts={} slaac={:?}", dev.asked, iface.inner.slaac);
             kani::cover!(tag == 1 && t > now, "probe inside the solicitation interval");
-            kani::cover!(tag == 0 && d.is_none(), "first solicitation pending, yet no deadline advertised");
+            kani::cover!(tag == 5 && t > now && !queued, "probe inside the second solicitation interval");
             kani::cover!(tag == 2 && t > now, "probe after the last solicitation");
             assert!(dev.asked == 0, "prop:c13_iface_nothing_sent_before_poll_at");
         }
@@ -413,14 +412,14 @@ mod v_iface_pollat {
         }
     }
 
-    // @harness props=C13 cfg=KI6 tier=q to=600 mem=8 unwind=18 opts=nomem covers=6 funcs=Interface::poll_at;Slaac::poll_at;Meta::poll_at;udp::Socket::poll_at;tcp::Socket::poll_at bounds=Medium::Ip_or_Ethernet,_Config.slaac_on/off,_SLAAC_history_symbolic_(Start_|_1..=2_solicitations_|_3_unanswered_solicitations_|_router_answer_with_lifetime_0_|_router_answer_with_lifetime_1us..=65535s),_all_events_at_symbolic_instants;_one-slot_socket_set:_empty_|_UDP_socket_with_empty/non-empty_queue_|_TCP_socket_in_SYN-SENT_with_its_retransmission_timer_at_a_symbolic_instant;_neighbor_state_Active;_now_<2^50_us
+    // @harness props=C13 cfg=KI6 tier=q to=900 mem=8 unwind=18 opts=nomem covers=6 funcs=Interface::poll_at;Slaac::poll_at;Meta::poll_at;udp::Socket::poll_at;tcp::Socket::poll_at bounds=Medium::Ip_or_Ethernet,_Config.slaac_on/off,_SLAAC_history_symbolic_(Start_|_1_|_2_|_3_unanswered_solicitations_|_router_answer_with_lifetime_0_|_router_answer_with_lifetime_1us..=65535s),_all_events_at_symbolic_instants;_one-slot_socket_set:_empty_|_UDP_socket_with_empty/non-empty_queue_|_TCP_socket_in_SYN-SENT_with_its_retransmission_timer_at_a_symbolic_instant;_neighbor_state_Active;_now_<2^50_us
     #[kani::proof]
     pub(crate) fn poll_at_combination() {
         #[cfg(feature = "proto-ipv6-slaac")]
         v6::combination_body();
     }
 
-    // @harness props=C13 cfg=KI6 tier=q to=600 mem=8 unwind=18 opts=nomem covers=3 funcs=Interface::poll_at;Slaac::poll_at;Meta::poll_at;udp::Socket::poll_at bounds=two_UDP_sockets;_5_concrete_shapes:_SLAAC_disabled_x_(idle+due,_due+idle,_idle+idle)_and_SLAAC_enabled_after_1..=2_solicitations_x_(due+idle,_idle+idle);_Medium::Ip_or_Ethernet;_neighbor_state_Active;_instants_symbolic,_now_<2^50_us
+    // @harness props=C13 cfg=KI6 tier=q to=900 mem=8 unwind=18 opts=nomem covers=3 funcs=Interface::poll_at;Slaac::poll_at;Meta::poll_at;udp::Socket::poll_at bounds=two_UDP_sockets;_5_concrete_shapes:_SLAAC_disabled_x_(idle+due,_due+idle,_idle+idle)_and_SLAAC_enabled_after_1_solicitation_x_(due+idle,_idle+idle);_Medium::Ip_or_Ethernet;_neighbor_state_Active;_instants_symbolic,_now_<2^50_us
     #[kani::proof]
     pub(crate) fn poll_at_combination_two() {
         #[cfg(feature = "proto-ipv6-slaac")]
